@@ -29,14 +29,14 @@ THEOREMS_BY_PROP = {
             "DepLogic.C12.exclude_mentions", "DepLogic.C12.exclude_implied", "DepLogic.C12.exclude_same_partial",
             "DepLogic.C12.exclude_same_needs_noVanish", "DepLogic.C12.only_ok", "DepLogic.C12.exclude_ok",
             "DepLogic.C12.singleSound_names", "DepLogic.C12.only_final", "DepLogic.C12.exclude_final",
-            "DepLogic.C12.noVanish_dnf", "DepLogic.C12.exclude_same_dnf"],
+            "DepLogic.C12.noVanish_dnf", "DepLogic.C12.exclude_same_dnf", "DepLogic.C12.noVanish_cnf", "DepLogic.C12.exclude_same_cnf"],
     "C15": ["DepLogic.C15.flatten_nodup", "DepLogic.C15.mkMulti_nodup", "DepLogic.C15.mkUnion_nodup",
             "DepLogic.C15.multiOf_exit", "DepLogic.C15.unionOfList_exit", "DepLogic.C15.and_neutral",
             "DepLogic.C15.or_neutral", "DepLogic.C15.singleAnd_pair_distinct", "DepLogic.C15.singleOr_pair_distinct",
             "DepLogic.C15.flatten_pair", "DepLogic.C15.and_single_shape", "DepLogic.C15.or_single_shape",
             "DepLogic.C15.multiOf_flat", "DepLogic.C15.unionOfList_flat", "DepLogic.C15.intersection_flat",
             "DepLogic.C15.unionOf_flat", "DepLogic.C15.and_flat", "DepLogic.C15.or_flat",
-            "DepLogic.C15.exclude_flat_multi", "DepLogic.C15.exclude_flat_union", "DepLogic.C15.only_flat_multi", "DepLogic.C15.only_flat_union", "DepLogic.C15.only_flat", "DepLogic.C15.multiOf_son", "DepLogic.C15.unionOfList_sox", "DepLogic.C15.multiOf_atomic", "DepLogic.C15.unionOfList_atomic", "DepLogic.C15.only_atomic_multi", "DepLogic.C15.only_atomic_union", "DepLogic.C15.exclude_atomic_multi", "DepLogic.C15.exclude_atomic_union", "DepLogic.C15.build_flat_conj", "DepLogic.C15.build_flat_disj"]}
+            "DepLogic.C15.exclude_flat_multi", "DepLogic.C15.exclude_flat_union", "DepLogic.C15.only_flat_multi", "DepLogic.C15.only_flat_union", "DepLogic.C15.only_flat", "DepLogic.C15.multiOf_son", "DepLogic.C15.unionOfList_sox", "DepLogic.C15.multiOf_atomic", "DepLogic.C15.unionOfList_atomic", "DepLogic.C15.only_atomic_multi", "DepLogic.C15.only_atomic_union", "DepLogic.C15.exclude_atomic_multi", "DepLogic.C15.exclude_atomic_union", "DepLogic.C15.unionOfList_not_empty", "DepLogic.C15.multiOf_not_any", "DepLogic.C15.build_flat_conj", "DepLogic.C15.build_flat_disj"]}
 THEOREMS: list[str] = []
 
 
